@@ -1,8 +1,19 @@
+import re
 from io import TextIOBase
 from xml.sax.saxutils import XMLGenerator
 
+from xsdata.exceptions import XmlWriterError
 from xsdata.formats.dataclass.serializers.config import SerializerConfig
 from xsdata.formats.dataclass.serializers.mixins import XmlWriter
+
+
+INVALID_CHARACTERS = re.compile("[\x00-\x08\x0b\x0c\x0e-\x1f\ud800-\udfff\ufffe\uffff]")
+
+
+def validate_characters(data: str) -> None:
+    """Raise an error if the data includes characters xml can not represent."""
+    if INVALID_CHARACTERS.search(data):
+        raise XmlWriterError(f"Invalid xml characters in {data!r}")
 
 
 class XmlEventWriter(XmlWriter):
@@ -56,12 +67,26 @@ class XmlEventWriter(XmlWriter):
         Args:
             data: The characters data to write
         """
+        validate_characters(data)
         head, *rest = data.split("\r")
         self.handler.characters(head)
         for part in rest:
             # The only generator method that writes content verbatim
             self.handler.ignorableWhitespace("&#13;")
             self.handler.characters(part)
+
+    def start_element(self, name: tuple[str, str], qname: str, attrs: dict) -> None:
+        """Start element notification receiver.
+
+        Args:
+            name: The qname as tuple
+            qname: The qualified name
+            attrs: The attributes mapping
+        """
+        for value in attrs.values():
+            validate_characters(value)
+
+        super().start_element(name, qname, attrs)
 
     def start_tag(self, qname: str) -> None:
         """Start tag notification receiver.
